@@ -9,6 +9,11 @@ def _lift(x):
     return x if isinstance(x, (R, Dual)) else R.lift(x)
 
 
+def _r(x):
+    from .core import R
+    return x if hasattr(x, "floor") else R.lift(x)
+
+
 class SymTD:
     """timedelta stand-in: exact real seconds"""
     def __init__(self, secs):
@@ -16,6 +21,19 @@ class SymTD:
 
     def total_seconds(self):
         return self.secs
+
+    # the fields of datetime.timedelta: days, seconds (0 <= s < 86400, whole), microseconds (the rest)
+    @property
+    def days(self):
+        return (_r(self.secs) / 86400).floor()
+
+    @property
+    def seconds(self):
+        return (_r(self.secs) - 86400 * self.days).floor()
+
+    @property
+    def microseconds(self):
+        return (_r(self.secs) - 86400 * self.days - self.seconds) * 1000000
 
     def __truediv__(self, k):
         if isinstance(k, SymTD):
